@@ -176,7 +176,7 @@ theorem pushGuard_error_kind {s : Server} {f : Flight} {e : ErrKind} (h : pushGu
       · simp at h
       · split at h
         · injection h with h; exact Or.inr h.symm
-        · simp at h
+        · split at h <;> simp at h
   · simp at h
 
 theorem pullPackResp_error_kind {s : Server} {f : Flight} {e : ErrKind} (h : pullPackResp s f = .error e) :
